@@ -89,6 +89,16 @@ impl EntryStoreTrait for Store {
             self.count.into(),
             jbk::EntryIdx::from(0).into(),
         );
+        // a second index on the same store, listed after "main": a lookup by name reads the index
+        // tails in table order, so "main" is not the last one looked at
+        directory_pack.create_index(
+            "aux",
+            Default::default(),
+            0.into(),
+            id,
+            std::cmp::min(self.count, 1).into(),
+            jbk::EntryIdx::from(0).into(),
+        );
     }
 }
 
@@ -207,7 +217,11 @@ pub fn dump_container_typed(c: &jbk::reader::Container) -> Result<Vec<String>, S
 
 fn dump_container_with(c: &jbk::reader::Container, typed_only: bool, order: u8) -> Result<Vec<String>, String> {
     let mut out = vec![];
-    let index = c.get_index_for_name("main").map_err(jerr)?.ok_or("noindex")?;
+    // "no such index" is an answer of the reader, not an error: it is part of the dump
+    let index = match c.get_index_for_name("main").map_err(jerr)? {
+        Some(i) => i,
+        None => return Ok(vec!["noindex".to_string()]),
+    };
     let builder = if typed_only {
         None
     } else {
